@@ -208,6 +208,11 @@ def partition_violation(cells, occ, taggers, active, a, all_relevant, level):
         vt = list(taggers["veto"].yield_identifiers_send_event_time(active))
         if vt != [(a,)]:
             return ("veto-in-state", "cell-veto tagger yields %r" % (vt,))
+        # the target cells the real cell-veto handler can propose (every row of its alias table; the stub estimator
+        # gives equal rates, so every row is one offset) must be exactly the non-nearby cells, each once
+        msg = veto_targets_violation(cells, taggers["veto"], active, acell)
+        if msg:
+            return msg
     if "bounding" in taggers:
         bt = collections.Counter()
         for ids in taggers["bounding"].yield_identifiers_send_event_time(active):
@@ -218,6 +223,44 @@ def partition_violation(cells, occ, taggers, active, a, all_relevant, level):
         if bt != far:
             return ("partition-bounding", "cell-bounding in-states cover %r, occupants of non-nearby cells are %r"
                     % (sorted(bt.elements()), sorted(far.elements())))
+    return None
+
+
+def veto_targets_violation(cells, tagger, active, acell):
+    import copy
+    from ..seam import Seam
+    handler = tagger.get_event_handlers()[0]
+    want = collections.Counter(c.identifier for c in cells.yield_cells() if c not in cells.nearby_cells(acell))
+    got = collections.Counter()
+
+    class Pol:
+        row = 0
+
+        def __call__(self, kind, args, index):
+            if kind == "choice":
+                self.n = args[0]
+                return self.row % args[0]
+            if kind == "uniform":
+                return args[0]
+            if kind == "expovariate":
+                return 1.0
+            raise HarnessError("cell-veto handler drew random.%s" % kind)
+    pol = Pol()
+    nrows = sum(want.values())
+    with Seam(pol):
+        for row in range(max(nrows, 1)):
+            pol.row = row
+            with contextlib.redirect_stdout(io.StringIO()):
+                t, targets = handler.send_event_time(copy.deepcopy(active))
+            if row == 0 and getattr(pol, "n", nrows) != nrows:
+                return ("veto-offsets", "the cell-veto handler's alias table has %d rows, there are %d non-nearby cells"
+                        % (pol.n, nrows))
+            for c in targets:
+                got[c.identifier] += 1
+    if got != want:
+        return ("veto-targets", "active cell %r: the cell-veto handler can propose target cells %r; the non-nearby "
+                "cells are %r (missing %r, twice %r)" % (acell.identifier, sorted(got.elements()), sorted(want.elements()),
+                                                         sorted((want - got).elements()), sorted((got - want).elements())))
     return None
 
 
